@@ -182,6 +182,20 @@ def bincount(x, weights=None, minlength=0):
             neg = e_or(neg, e_lt(v, 0))
         if neg is not False and bool(neg):
             raise ValueError("'list' argument must have no negative elements")
+        # the result has max(x) + 1 int64 slots (allocation contract, section 2.9): the slot count wraps for
+        # the int64 maximum (NumPy then returns an empty array); 2^63 bytes or more is "array is too big";
+        # 2^47 bytes or more (the whole x86-64 user address space) cannot be allocated on any machine.
+        # Smaller requests are taken to succeed.
+        mx = None
+        for v in x.o:
+            mx = v if mx is None else S.e_max(mx, v)
+        if mx is not None:
+            if bool(e_eq(mx, 2 ** 63 - 1)):
+                return snp.zeros(0, dtype=rnp.int64)
+            if bool(e_le(2 ** 60 - 1, mx)):
+                raise ValueError("array is too big; `arr.size * arr.dtype.itemsize` is larger than the maximum possible size.")
+            if bool(e_le(2 ** 44 - 1, mx)):
+                raise MemoryError("Unable to allocate an array of max(x) + 1 int64 slots")
         return LazyBincount(list(x.o))
     shx = x.shadow()
     if weights is not None:
